@@ -31,7 +31,7 @@ META = {
         text='Theorems Props.C04_curly and C04_jsr (Coq, no axioms): under both routers the parameter map of an invoked route is '
              'exactly the map of the structural bindings of root + route template on the path (segment minus verb/suffix; tail = '
              'remaining text); extraction cannot panic on an admitted path. RouterJSR311 under the boolean premises '
-             'jsr_tokens_agree / jsr_names_agree (evaluated on every generated case). Defect F9 (capture group inside a variable expression shifts later bindings under RouterJSR311) found and fixed; such expressions are in the pool and their groups are modelled in the ranking keys.',
+             'jsr_tokens_agree / jsr_names_agree (evaluated on every generated case). Defect F9 (capture group inside a variable expression shifts later bindings under RouterJSR311) found and fixed; such expressions are in the pool and their groups are modelled in the ranking keys. Domain disp also checks the parameter map each route function is handed behind filters, adapted middleware and wrapping filters against the model (c04_route_function_is_handed_the_bound_parameters).',
         design_ref='DESIGN.md section 6, C04', note=NOTE_ROUTING, technique=TECH),
     'C09': dict(
         text='Theorems Props.C09, C09_granted, C09_once (Coq, no axioms): for every oracle, configuration, set of routable '
@@ -225,7 +225,7 @@ META.update({
              'PARTIAL: the codecs are assumptions of the theorem; the correspondence carries the weight: values written by '
              'go-restful\'s own writers are read back through a real container (int64 extremes, unicode), with truncated / corrupt '
              '/ mislabelled bodies in the same history, both providers, sequentially, on fresh containers and concurrently, all '
-             'equal to the model fed with the standard library\'s own verdicts as oracles.',
+             'equal to the model fed with the standard library\'s own verdicts as oracles. Also histories in which the application re-registers the standard media types with each other\'s accessors (model: ent_registry_swapped); every request under a watchdog.',
         design_ref='DESIGN.md section 6, C16',
         note='trusted: Coq kernel, extraction+driver, Go harness; encoding/json|xml and compress/gzip|zlib (assumed contracts; oracles '
              'tabulated with the standard library)',
